@@ -1,7 +1,7 @@
 #!/bin/bash
 # usage: wave.sh <worktree-dir> <PID> <first-seeded-number>  -- for patch1..3: confirm+store as <PID>-<n>, then run the property's check
 W=$1; PID=$2; N=$3
-for k in 1 2 3; do
+for k in 1 2 3 4; do
   [ -f $W/patch$k.diff ] || continue
   SID=$PID-$N; N=$((N+1))
   /verif/tools/keep_mutant.sh $W $k $SID | tr '\n' ' '; echo
